@@ -22,16 +22,19 @@ pub struct Case {
 }
 
 fn strategy(_t: Tier) -> BoxedStrategy<Case> {
-    // the dynamic type has no size limit: about one case in 8000 uses 15..=20 variables (tables of
+    // the dynamic type has no size limit: about one case in 4000 uses 15..=20 variables (tables of
     // 512 .. 16384 words), two index pairs
     let sizes = prop_oneof![
-        8000 => arb_fam_n(1, 14),
+        4000 => arb_fam_n(1, 14),
         1 => prop_oneof![3 => 15usize..=17, 2 => 18usize..=20].prop_map(|n| (Fam::Dyn, n)),
     ];
     sizes
         .prop_flat_map(|(fam, n)| {
             if n > 14 {
-                return (arb_tt(n), arb_tt(n), arb_tt(n), vec(arb_ij(n), 1..=2)).prop_map(move |(f, c0, c1, idx)| Case { fam, f, c0, c1, idx }).boxed();
+                // every second pair from the top three variables: run lengths of 2^(min(i,j)-6) words only
+                // get long there (a 256-word buffer is first exceeded at min(i,j) = 15)
+                let top = (n - 3..n, n - 3..n).boxed();
+                return (arb_tt(n), arb_tt(n), arb_tt(n), vec(prop_oneof![arb_ij(n), top], 2..=3)).prop_map(move |(f, c0, c1, idx)| Case { fam, f, c0, c1, idx }).boxed();
             }
             let idx = if n <= 5 {
                 // all pairs
@@ -170,7 +173,7 @@ fn enumerate(t: Tier, shard: usize, nshards: usize, f: &mut dyn FnMut(Case) -> b
 pub fn def() -> PropDef {
     PropDef {
         id: "C03",
-        rule: "cases = (family, f, c0, c1, index pairs) with n in 1..=12 (LutN) / 1..=14 (Lut; about one case in 8000 has 15..=20 variables), tables from the table generator (dense classes dominate), all (i,j) for n<=5 and regime-balanced drawn pairs (both<=5, j<=5<i, both>=6) above; for each index: flip/flip_inplace, cofactors (both), from_cofactors(cofactors(f)), from_cofactors(c0,c1) for arbitrary c0,c1 and from_cofactors(c0,c0) with one object passed twice; for each pair: swap/swap_inplace in the given argument order and swap_adjacent(_inplace) when j=i+1; every result compared with the definition on every assignment via value(). Non-trivial = f depends on the variable / the swap changes f; distinct by whole case. Exhaustive part: all f, all (i,j), n<=3 (quick) / n<=4 (thorough).",
+        rule: "cases = (family, f, c0, c1, index pairs) with n in 1..=12 (LutN) / 1..=14 (Lut; about one case in 4000 has 15..=20 variables, two or three index pairs, every second pair among the top three variables), tables from the table generator (dense classes dominate), all (i,j) for n<=5 and regime-balanced drawn pairs (both<=5, j<=5<i, both>=6) above; for each index: flip/flip_inplace, cofactors (both), from_cofactors(cofactors(f)), from_cofactors(c0,c1) for arbitrary c0,c1 and from_cofactors(c0,c0) with one object passed twice; for each pair: swap/swap_inplace in the given argument order and swap_adjacent(_inplace) when j=i+1; every result compared with the definition on every assignment via value(). Non-trivial = f depends on the variable / the swap changes f; distinct by whole case. Exhaustive part: all f, all (i,j), n<=3 (quick) / n<=4 (thorough).",
         assumptions: vec!["value(), from_blocks()/set_bit() as observation/loading channel; stray bits are not inspected here (C02)"],
         subs: vec![Box::new(Sub {
             name: "transforms",
